@@ -98,6 +98,53 @@ pub static N_THREADS: AtomicU32 = AtomicU32::new(0);
 
 /// Max hook points seen inside one outermost dispatch bracket, and the number of brackets.
 pub static MAX_DISPATCH_STEPS: AtomicU64 = AtomicU64::new(0);
+/// per harness thread: id (>0) of the outermost dispatch bracket that is open on it right now
+pub static OPEN_BRACKET: [AtomicU64; MAX_THREADS] = [A64; MAX_THREADS];
+
+/// "A delivery does not complete": some harness thread has had the same dispatch bracket open for the whole
+/// observation window while its CPU clock advanced by >= 2 s (it is not parked by the Director: callers make sure no
+/// PAUSE rule is active), or while it sat blocked in a system call. Decided on the thread's own CPU time and kernel
+/// state, not on wall time. Returns a description.
+pub fn delivery_stuck(ktids: &[(u32, i32)]) -> Option<String> {
+    for t in 1..MAX_THREADS {
+        let b0 = OPEN_BRACKET[t].load(Ordering::SeqCst);
+        let pth = crate::THREAD_PTH[t].load(Ordering::SeqCst);
+        if b0 == 0 || pth == 0 {
+            continue;
+        }
+        let cpu0 = crate::probe::thread_cpu_ns(pth as libc::pthread_t);
+        let mut burnt = 0;
+        let mut same = true;
+        for _ in 0..30 {
+            std::thread::sleep(std::time::Duration::from_millis(100));
+            if OPEN_BRACKET[t].load(Ordering::SeqCst) != b0 {
+                same = false;
+                break;
+            }
+            burnt = crate::probe::thread_cpu_ns(pth as libc::pthread_t).saturating_sub(cpu0);
+            if burnt > 2_000_000_000 {
+                break;
+            }
+        }
+        if !same {
+            continue;
+        }
+        if burnt > 2_000_000_000 {
+            return Some(format!("thread {} has been inside one dispatch bracket while burning {} ms of its own CPU time: the delivery spins instead of completing", t, burnt / 1_000_000));
+        }
+        if let Some((_, kt)) = ktids.iter().find(|(ht, _)| *ht as usize == t) {
+            let zero = || OPEN_BRACKET[t].load(Ordering::SeqCst);
+            if let Some(st) = crate::probe::thread_state(*kt) {
+                if let Some((nr, _)) = st.syscall {
+                    if (st.state == 'S' || st.state == 'D') && crate::probe::stably_blocked_in(*kt, &[nr], None, 10, 10, &zero) && OPEN_BRACKET[t].load(Ordering::SeqCst) == b0 {
+                        return Some(format!("thread {} is blocked in system call {} inside a dispatch bracket: the delivery waits instead of completing", t, nr));
+                    }
+                }
+            }
+        }
+    }
+    None
+}
 pub static DISPATCHES: AtomicU64 = AtomicU64::new(0);
 pub static NESTED_DISPATCHES: AtomicU64 = AtomicU64::new(0);
 pub static RAISE_SEQ: AtomicU64 = AtomicU64::new(1 << 40);
@@ -287,7 +334,11 @@ fn hook(s: u32, a: usize, b: usize) {
         });
         if d == 0 {
             ENTER_STEPS.with(|e| e.set(STEPS.with(|s| s.get())));
-            DISPATCHES.fetch_add(1, Ordering::Relaxed);
+            let n = DISPATCHES.fetch_add(1, Ordering::Relaxed);
+            let t = crate::tid() as usize;
+            if t != 0 && t < MAX_THREADS {
+                OPEN_BRACKET[t].store(n + 1, Ordering::Relaxed);
+            }
         } else {
             NESTED_DISPATCHES.fetch_add(1, Ordering::Relaxed);
         }
@@ -353,6 +404,10 @@ fn hook(s: u32, a: usize, b: usize) {
             v
         });
         if d == 0 {
+            let t = crate::tid() as usize;
+            if t != 0 && t < MAX_THREADS {
+                OPEN_BRACKET[t].store(0, Ordering::Relaxed);
+            }
             // informational only: the thread-local counters are updated non-atomically and a nested
             // delivery inside the hook can make them go backwards
             let st = STEPS.with(|s| s.get()).saturating_sub(ENTER_STEPS.with(|e| e.get()));
